@@ -24,6 +24,7 @@ import (
 	"flag"
 	"fmt"
 	"go/ast"
+	"go/importer"
 	"go/parser"
 	"go/printer"
 	"go/token"
@@ -53,6 +54,8 @@ type report struct {
 	Goscheds      []string       `json:"goscheds"`
 	ChanOps       []string       `json:"chan_ops"`
 	Selects       []string       `json:"selects"`
+	TimerCalls    []string       `json:"timer_calls"`
+	RangesStatic  int            `json:"ranges_decided_statically"`
 	Ranges        []string       `json:"ranges_maybe_chan"`
 	AtomicUsers   []string       `json:"sync_atomic_importers"`
 	TryLocks      []string       `json:"try_locks"`
@@ -272,6 +275,16 @@ func instrument(path, rel, out string) error {
 		if !ok {
 			return true
 		}
+		if m := timerCallAt[c.posKey(call)]; m != "" && m == sel.Sel.Name {
+			// a firing of a time.AfterFunc timer runs as a task: the simulator has to see it re-armed
+			recv := sel.X
+			where := c.pos(call)
+			call.Fun = &ast.SelectorExpr{X: ast.NewIdent("simrt"), Sel: ast.NewIdent("Timer" + m)}
+			call.Args = append([]ast.Expr{recv}, call.Args...)
+			c.usesSimrt = true
+			rep.TimerCalls = append(rep.TimerCalls, where+" "+m)
+			return true
+		}
 		x, ok := sel.X.(*ast.Ident)
 		if !ok {
 			return true
@@ -478,7 +491,13 @@ func (c *fileCtx) rewriteStmt(s ast.Stmt) []ast.Stmt {
 		return c.bracket(s, true, "send")
 	case *ast.SelectStmt:
 		rep.Selects = append(rep.Selects, c.pos(s))
-		return c.bracket(s, true, "select")
+		if out := c.rewriteSelect(st); out != nil {
+			return out
+		}
+		rep.Unhandled = append(rep.Unhandled, c.pos(s)+": select statement left to the runtime's random choice")
+		// no statement after it: every clause body starts with PostChan, and a select whose clauses
+		// all return must stay the function's terminating statement
+		return c.bracket(s, false, "select")
 	case *ast.ExprStmt:
 		if shallowChanOp(st.X) {
 			return c.bracket(s, true, "recv/close")
@@ -531,12 +550,19 @@ func (c *fileCtx) rewriteStmt(s ast.Stmt) []ast.Stmt {
 			st.Stmt = inner[0]
 			return []ast.Stmt{st}
 		}
-		// keep the label on the statement itself
+		// keep the label on the statement itself (a select that became a switch: on the switch, the
+		// last statement of its replacement)
+		found := false
 		for i, x := range inner {
 			if x == st.Stmt {
 				st.Stmt = x
 				inner[i] = st
+				found = true
 			}
+		}
+		if !found {
+			st.Stmt = inner[len(inner)-1]
+			inner[len(inner)-1] = st
 		}
 		return inner
 	case *ast.RangeStmt:
@@ -550,6 +576,17 @@ func (c *fileCtx) rewriteStmt(s ast.Stmt) []ast.Stmt {
 				break
 			}
 		}
+		switch rangeKindAt[c.posKey(st)] {
+		case "other":
+			rep.RangesStatic++
+			return []ast.Stmt{s} // known not to be a channel (passing an array to RangePre would copy it)
+		case "chan":
+			rep.RangesStatic++
+			c.usesSimrt = true
+			rep.Ranges = append(rep.Ranges, c.pos(s))
+			st.Body.List = append([]ast.Stmt{stmtCall("simrt", "PostChan")}, st.Body.List...)
+			return []ast.Stmt{stmtCall("simrt", "PreChan"), s, stmtCall("simrt", "PostChan")}
+		}
 		switch st.X.(type) {
 		case *ast.Ident, *ast.SelectorExpr:
 			// x may be a channel: decided at run time, one reflect call per iteration
@@ -560,6 +597,109 @@ func (c *fileCtx) rewriteStmt(s ast.Stmt) []ast.Stmt {
 		}
 	}
 	return []ast.Stmt{s}
+}
+
+// rewriteSelect turns a select statement into a switch over simrt.Select, which polls the clauses
+// in a seeded order instead of leaving the choice among ready clauses to the runtime:
+//
+//	_c0 := simrt.RecvFrom(ch1); _c1 := simrt.SendTo(ch2).Val(x)
+//	switch simrt.Select(hasDefault, _c0, _c1) {
+//	case 0: v, ok := _c0.Got2(); simrt.PostChan(); body...
+//	case 1: simrt.PostChan(); body...
+//	default: simrt.PostChan(); default body...   (or panic("unreachable") when there is no default clause)
+//	}
+//
+// Channel operands and send values are evaluated once, in source order, as the statement does.
+func (c *fileCtx) rewriteSelect(st *ast.SelectStmt) []ast.Stmt {
+	tmpCounter++
+	id := tmpCounter
+	var pre []ast.Stmt
+	var args []ast.Expr
+	var clauses []ast.Stmt
+	hasDefault := false
+	n := 0
+	unparen := func(e ast.Expr) ast.Expr {
+		for {
+			p, ok := e.(*ast.ParenExpr)
+			if !ok {
+				return e
+			}
+			e = p.X
+		}
+	}
+	recvOf := func(e ast.Expr) ast.Expr {
+		u, ok := unparen(e).(*ast.UnaryExpr)
+		if !ok || u.Op != token.ARROW {
+			return nil
+		}
+		return u.X
+	}
+	for _, cl := range st.Body.List {
+		cc, ok := cl.(*ast.CommClause)
+		if !ok {
+			return nil
+		}
+		post := stmtCall("simrt", "PostChan")
+		if cc.Comm == nil {
+			hasDefault = true
+			clauses = append(clauses, &ast.CaseClause{Body: append([]ast.Stmt{post}, cc.Body...)})
+			continue
+		}
+		name := fmt.Sprintf("_simSel%d_%d", id, n)
+		var bind ast.Expr
+		var first ast.Stmt
+		switch cm := cc.Comm.(type) {
+		case *ast.SendStmt:
+			bind = &ast.CallExpr{Fun: &ast.SelectorExpr{X: call("simrt", "SendTo", cm.Chan), Sel: ast.NewIdent("Val")}, Args: []ast.Expr{cm.Value}}
+		case *ast.ExprStmt:
+			ch := recvOf(cm.X)
+			if ch == nil {
+				return nil
+			}
+			bind = call("simrt", "RecvFrom", ch)
+		case *ast.AssignStmt:
+			if len(cm.Rhs) != 1 || len(cm.Lhs) < 1 || len(cm.Lhs) > 2 {
+				return nil
+			}
+			ch := recvOf(cm.Rhs[0])
+			if ch == nil {
+				return nil
+			}
+			bind = call("simrt", "RecvFrom", ch)
+			got := "Got1"
+			if len(cm.Lhs) == 2 {
+				got = "Got2"
+			}
+			first = &ast.AssignStmt{Lhs: cm.Lhs, Tok: cm.Tok, Rhs: []ast.Expr{
+				&ast.CallExpr{Fun: &ast.SelectorExpr{X: ast.NewIdent(name), Sel: ast.NewIdent(got)}}}}
+		default:
+			return nil
+		}
+		pre = append(pre, &ast.AssignStmt{Lhs: []ast.Expr{ast.NewIdent(name)}, Tok: token.DEFINE, Rhs: []ast.Expr{bind}})
+		args = append(args, ast.NewIdent(name))
+		body := []ast.Stmt{}
+		if first != nil {
+			body = append(body, first)
+		}
+		body = append(body, post)
+		body = append(body, cc.Body...)
+		clauses = append(clauses, &ast.CaseClause{List: []ast.Expr{&ast.BasicLit{Kind: token.INT, Value: strconv.Itoa(n)}}, Body: body})
+		n++
+	}
+	if !hasDefault {
+		clauses = append(clauses, &ast.CaseClause{Body: []ast.Stmt{&ast.ExprStmt{X: &ast.CallExpr{Fun: ast.NewIdent("panic"),
+			Args: []ast.Expr{&ast.BasicLit{Kind: token.STRING, Value: strconv.Quote("simgen: unreachable select clause")}}}}}})
+	}
+	c.usesSimrt = true
+	rep.ChanOps = append(rep.ChanOps, c.pos(st)+" select (deterministic stand-in)")
+	hd := "false"
+	if hasDefault {
+		hd = "true"
+	}
+	sw := &ast.SwitchStmt{Tag: call("simrt", "Select", append([]ast.Expr{ast.NewIdent(hd)}, args...)...), Body: &ast.BlockStmt{List: clauses}}
+	out := []ast.Stmt{stmtCall("simrt", "PreChan")}
+	out = append(out, pre...)
+	return append(out, sw)
 }
 
 func (c *fileCtx) posKey(n ast.Node) string {
@@ -616,7 +756,21 @@ func findMapRanges(root string) {
 		return nil
 	})
 	var check func(dir string) *types.Package
+	// package time is type-checked from source (under a second): whether the receiver of a Reset or
+	// Stop call is a *time.Timer, or a range operand a channel of time.Time, has to be known
+	std := importer.ForCompiler(fset, "source", nil)
+	var timePkg *types.Package
 	imp := importerFunc(func(path string) (*types.Package, error) {
+		if path == "time" {
+			if timePkg == nil {
+				if p, err := std.Import("time"); err == nil {
+					timePkg = p
+				}
+			}
+			if timePkg != nil {
+				return timePkg, nil
+			}
+		}
 		if modPath != "" && (path == modPath || strings.HasPrefix(path, modPath+"/")) {
 			d := filepath.Join(root, strings.TrimPrefix(strings.TrimPrefix(path, modPath), "/"))
 			if p := check(d); p != nil {
@@ -651,13 +805,32 @@ func findMapRanges(root string) {
 		pf.done = pkg
 		for _, f := range pf.files {
 			ast.Inspect(f, func(n ast.Node) bool {
-				rs, ok := n.(*ast.RangeStmt)
-				if !ok {
-					return true
+				key := func(pos token.Pos) string {
+					p := fset.Position(pos)
+					return fmt.Sprintf("%s:%d:%d", p.Filename, p.Line, p.Column)
 				}
-				if tv, ok := info.Types[rs.X]; ok && isMapType(tv.Type) {
-					p := fset.Position(rs.Pos())
-					mapRangeAt[fmt.Sprintf("%s:%d:%d", p.Filename, p.Line, p.Column)] = true
+				switch x := n.(type) {
+				case *ast.RangeStmt:
+					if tv, ok := info.Types[x.X]; ok && tv.Type != nil {
+						if isMapType(tv.Type) {
+							mapRangeAt[key(x.Pos())] = true
+						}
+						if b, ok := tv.Type.(*types.Basic); !ok || b.Kind() != types.Invalid {
+							if _, isChan := tv.Type.Underlying().(*types.Chan); isChan {
+								rangeKindAt[key(x.Pos())] = "chan"
+							} else if _, isTP := tv.Type.(*types.TypeParam); !isTP {
+								rangeKindAt[key(x.Pos())] = "other"
+							}
+						}
+					}
+				case *ast.CallExpr:
+					sel, ok := x.Fun.(*ast.SelectorExpr)
+					if !ok || (sel.Sel.Name != "Reset" && sel.Sel.Name != "Stop") {
+						return true
+					}
+					if tv, ok := info.Types[sel.X]; ok && isTimerPtr(tv.Type) {
+						timerCallAt[key(x.Pos())] = sel.Sel.Name
+					}
 				}
 				return true
 			})
@@ -667,6 +840,21 @@ func findMapRanges(root string) {
 	for d := range dirs {
 		check(d)
 	}
+}
+
+// timerCallAt holds the positions of the calls x.Reset(d) / x.Stop() whose receiver is a *time.Timer,
+// rangeKindAt whether the operand of a range statement is a channel ("chan") or known not to be one
+// ("other"); both as decided by go/types in findMapRanges.
+var timerCallAt = map[string]string{}
+var rangeKindAt = map[string]string{}
+
+func isTimerPtr(t types.Type) bool {
+	p, ok := t.(*types.Pointer)
+	if !ok {
+		return false
+	}
+	n, ok := p.Elem().(*types.Named)
+	return ok && n.Obj() != nil && n.Obj().Pkg() != nil && n.Obj().Pkg().Path() == "time" && n.Obj().Name() == "Timer"
 }
 
 type importerFunc func(path string) (*types.Package, error)
